@@ -33,7 +33,8 @@ std::string html_esc(const std::string & s) {
 
 const char * KEYWORDS[] = {"Title", "Author", "Date", "Foo", "Bar", "Affiliation", "Web", "Keywords", "Revision", "X1", "my key", "a.b", "c_d", "e-f", "2nd", "Subject Line", "ABC def", "k9",
 						   "Foo Bar", "Dated", "Web Site", "Auth", "X12", "Key",     // keys that are prefixes / extensions of other keys once normalised
-						   "1. Author", "2. Reviewer", "K"};                                 // keys that start like an enumerated list item (legal anywhere but on the first line, where the line IS a list item)
+						   "1. Author", "2. Reviewer", "K",
+						   "HTML Header", "XHTML Header"};                              // special keys whose value goes into <head> as it stands                                 // keys that start like an enumerated list item (legal anywhere but on the first line, where the line IS a list item)
 const int NKEYWORDS = sizeof(KEYWORDS) / sizeof(KEYWORDS[0]);
 const char * WORDS[] = {"alpha", "Beta", "v", "w", "&", "&amp;", "a:b", ":", "x<y", ">", "\"q\"", "it's", "caf\xc3\xa9", "\xe6\x97\xa5\xe6\x9c\xac", "*em*", "_u_", "100%", "a|b", "[x]", "(y)", "#1", "1.", "-", "+", "`c`", "~", "^", "$m$", "{z}", "back\\slash", "http://x.y/z?a=1&b=2", "e@f.gh", "=", ";", ",", "!", "?", "@", "abc.", "\xc3\xbc" "ber"};
 const int NWORDS = sizeof(WORDS) / sizeof(WORDS[0]);
@@ -377,7 +378,8 @@ struct MetaEngine : Engine {
 				free(r);
 				for (auto & kv : M) {
 					std::string want = kv.first == "title" ? "\t<title>" + html_esc(kv.second) + "</title>\n" : "\t<meta name=\"" + html_esc(kv.first) + "\" content=\"" + html_esc(kv.second) + "\"/>\n";
-					if (is_special(kv.first)) continue;
+					if (kv.first == "htmlheader" || kv.first == "xhtmlheader") want = kv.second + "\n";      // copied into <head> verbatim
+					else if (is_special(kv.first)) continue;
 					if (html.find(want) == std::string::npos) { fail(k, "complete_output_lacks_value", kind, "expected " + Json(want).dump() + " in the HTML head"); break; }
 				}
 			} else if (kind == "CLI_KEYS" || kind == "CLI_VALUE") {
